@@ -132,6 +132,8 @@ class HeapMixin:
             return getattr(model, "get_" + attr)(self, obj, fr)
         if model is not None and hasattr(model, "m_" + attr):
             return BoundMethod(obj, attr)
+        if isinstance(cls, type) and issubclass(cls, BaseException) and attr == "with_traceback":
+            return BoundMethod(obj, attr)  # exc.with_traceback(tb) is exc (calls.call_method)
         if isinstance(cls, type):
             for k in cls.__mro__:
                 if attr in k.__dict__:
@@ -538,6 +540,22 @@ class HeapMixin:
             r = f(container.t, needle)
             ctx.assume(z3.Implies(z3.And(container.n == 0, z3.Length(needle) > 0), z3.Not(r)))
             return r
+        if isinstance(container, SymAny) and not fr.spec and kind_of_strlike(item):
+            # `needle in x` for an application supplied x and a str / bytes needle, by CPython's
+            # table: not iterable -> TypeError; str / bytes -> substring test (TypeError when the
+            # needle is of the other kind); list / tuple / memoryview / array / anything else ->
+            # element comparison, whose outcome is not determined by the bytes the value converts to
+            want = kind_of_strlike(item)
+            tag, val = ops.any_split(ctx, container, "in", interesting=("str", "bytes", "seq", "other"))
+            if tag == "rest":
+                raise mk_exc(TypeError, "argument of this type is not iterable", where=fr.where())
+            if tag in ("str", "bytes"):
+                if tag != want:
+                    raise mk_exc(TypeError, "'in <string>' requires string as left operand / a bytes-like object is required", where=fr.where())
+                return self.contains(val, item, fr)
+            return ctx.fresh(f"elem_in({container.name})@{fr.line}", z3.BoolSort())
+        if isinstance(container, (SymInt, SymBool, int, float)) and not fr.spec:
+            raise mk_exc(TypeError, "argument of type 'int' is not iterable", where=fr.where())
         if isinstance(container, SObj):
             model = self.model_for(container.cls)
             if model is not None and hasattr(model, "m___contains__"):
